@@ -30,7 +30,7 @@ func runC19(seed uint64, n int, tier string, outDir string) []*Stats {
 	cf := NewCoqFile("From V Require Import Common.Base C18.Pieces C18.Harness C19.Metafile C19.Json C19.Layout C19.Doc C19.Harness.")
 	st := NewStats("c19", seed)
 
-	docLimit = 12
+	docLimit = 8
 	if tier != "quick" {
 		docLimit = 120
 	}
@@ -41,8 +41,8 @@ func runC19(seed uint64, n int, tier string, outDir string) []*Stats {
 	oddNameBuilds(st)
 	metaCases(r, n/2, cf, st)
 	outsCases(r, n/2, cf, st)
-	quoteCases(r, n, cf, st)
-	genCases(r, n/2, cf, st)
+	quoteCases(r, n/2, cf, st)
+	genCases(r, n/4, cf, st)
 	glueMetafile(r, n, st)
 	flushDocs(cf)
 
